@@ -129,7 +129,20 @@ def gen_sess_case(rng, case_id):
     qs = [0, 1, 2]
     for _ in range(L):
         r = rng.random()
-        if r < 0.08 or nprobe == 0:
+        if r < 0.03 and nprobe > 0:
+            # an announced actor that is still in pre_start when frames for it arrive
+            i = nprobe
+            nprobe += 1
+            ops.append(("sspawn", i))
+            for j in range(rng.choice([1, 2, 4])):
+                sb = [rng.choice([1, 2]), j] + rnd_bytes(rng)
+                if rng.random() < 0.5:
+                    ops.append(("grcall", i, rng.randrange(1, 50), rng.choice([2, 4, 6, 3]), sb))
+                else:
+                    ops.append(("grcast", i, rng.choice([1, 2, 3, 4]), sb))
+            ops.append(("release", i))
+            alive.add(i)
+        elif r < 0.08 or nprobe == 0:
             ops.append(("spawn", nprobe))
             alive.add(nprobe)
             nprobe += 1
@@ -209,9 +222,9 @@ def sess_line(c):
     parts = []
     for op in c["ops"]:
         k = op[0]
-        if k in ("rcast", "hrcast", "send"):
+        if k in ("rcast", "hrcast", "grcast", "send"):
             parts.append(f"{k} {op[1]} {op[2]} {b(op[3])}")
-        elif k in ("rcall", "hrcall"):
+        elif k in ("rcall", "hrcall", "grcall"):
             parts.append(f"{k} {op[1]} {op[2]} {op[3]} {b(op[4])}")
         elif k == "scall":
             parts.append(f"scall {op[1]} {op[2]} {b(op[3])} {op[4]}")
@@ -228,17 +241,19 @@ def sess_model(c):
     ops = []
     for op in c["ops"]:
         k = op[0]
-        if k == "spawn":
+        if k in ("spawn", "sspawn"):
             ops.append(f"USpawn {op[1]}")
+        elif k == "release":
+            ops.append("UAbandon 0")      # no model step: the model's actor handles messages from its spawn on
         elif k == "join":
             ops.append(f"UJoin {op[1]} {op[2]}")
         elif k == "leave":
             ops.append(f"ULeave {op[1]} {op[2]}")
         elif k in ("exit", "hexit"):
             ops.append(f"UExit {op[1]}")
-        elif k in ("rcast", "hrcast"):
+        elif k in ("rcast", "hrcast", "grcast"):
             ops.append(f"URecvF (FMsg {op[1]} 0 (mkMsg false {op[2]} {bl(op[3])}) 0)")
-        elif k in ("rcall", "hrcall"):
+        elif k in ("rcall", "hrcall", "grcall"):
             ops.append(f"URecvF (FMsg {op[1]} {op[2]} (mkMsg true {op[3]} {bl(op[4])}) 0)")
         elif k == "fspawn":
             ops.append(f"URecvB (FSpawn {RB + op[1]})")
@@ -261,16 +276,27 @@ def sess_model(c):
     return f"urun 4 {xs} {ys} (init 0 0) [" + "; ".join(ops) + "]"
 
 
-def sess_inbound(c):
+def sess_inbound(c, want_must=False):
     """the Cast/Call frames that arrive, in arrival order: list (N * msg)"""
     def bl(x):
         return "[" + "; ".join(map(str, x)) + "]"
-    items = []
+    items, must, live = [], [], set()
     for op in c["ops"]:
-        if op[0] in ("rcast", "hrcast"):
-            items.append(f"({op[1]}, mkMsg false {op[2]} {bl(op[3])})")
-        elif op[0] in ("rcall", "hrcall"):
-            items.append(f"({op[1]}, mkMsg true {op[3]} {bl(op[4])})")
+        if op[0] in ("spawn", "sspawn"):
+            live.add(op[1])
+        elif op[0] in ("exit", "hexit"):
+            live.discard(op[1])
+        it = None
+        if op[0] in ("rcast", "hrcast", "grcast"):
+            it = f"({op[1]}, mkMsg false {op[2]} {bl(op[3])})"
+        elif op[0] in ("rcall", "hrcall", "grcall"):
+            it = f"({op[1]}, mkMsg true {op[3]} {bl(op[4])})"
+        if it:
+            items.append(it)
+            if op[1] in live:
+                must.append(it)
+    if want_must:
+        return "[" + "; ".join(must) + "]"
     return "[" + "; ".join(items) + "]"
 
 
@@ -289,7 +315,7 @@ def canon_u(t, ops=None):
         if acc is not None:
             wire, dlv, res = acc[0] + wire, acc[1] + dlv, acc[2] + res
             acc = None
-        if ops is not None and j < len(ops) and ops[j][0] in ("hexit", "hrcast", "hrcall"):
+        if ops is not None and j < len(ops) and ops[j][0] in ("hexit", "hrcast", "hrcall", "sspawn", "grcast", "grcall"):
             acc = (wire, dlv, res)
             continue
         out.append(("mkU", u[1], sorted(wire, key=show_term), dlv, res, u[5], u[6]))
@@ -332,6 +358,7 @@ class Scen:
         self.strict = True
         self.last_settle = False
         self.groups = {}
+        self.starting = set()     # probes still in pre_start: they answer only after `release`
 
     def op(self, s):
         self.ops.append(s)
@@ -369,6 +396,7 @@ class Scen:
         self.op(f"call {caller} {via} {tgt} {mode} {delay} {timeout} {blob}")
         self.calls[rid] = {"mode": mode, "delay": delay, "timeout": timeout, "tgt": tgt}
         if (self.connected and tgt in self.known and tgt in self.alive
+                and not (tgt in self.starting and timeout != 0)
                 and (mode == 0 or (mode == 1 and (timeout == 0 or delay + 3 <= timeout)))):
             self.expect.add(rid)
         return rid
@@ -381,6 +409,12 @@ class Scen:
 
     def line(self):
         return self.head + " | " + " ; ".join(self.ops)
+
+
+def gkey(rng):
+    """group key: 1000 * scope + group; scope 0 = the default scope (named scopes share group names
+    with the default scope on purpose)"""
+    return rng.choice([0, 1, 2, 1, 1001, 1002, 2001, 1001])
 
 
 def blob_len(rng):
@@ -420,12 +454,12 @@ def traffic(s, n, fault_free=True):
         elif r < 0.98:
             if s.alive:
                 i = rng.choice(sorted(s.alive))
-                g = rng.randrange(3)
+                g = gkey(rng)
                 s.op(f"join {i} {g}")
         else:
             if s.alive:
                 i = rng.choice(sorted(s.alive))
-                s.op(f"leave {i} {rng.randrange(3)}")
+                s.op(f"leave {i} {gkey(rng)}")
 
 
 def gen_net_case(rng, kind):
@@ -435,12 +469,44 @@ def gen_net_case(rng, kind):
     s = Scen(rng, seed, chunk, jitter)
     for _ in range(rng.choice([1, 2, 3])):
         i = s.spawn()
-        if rng.random() < 0.5:
-            s.op(f"join {i} {rng.randrange(3)}")
+        # memberships that exist BEFORE the session authenticates (initial synchronisation), in the
+        # default scope and in named scopes
+        for _ in range(rng.choice([0, 1, 1, 2, 3])):
+            s.op(f"join {i} {gkey(rng)}")
     s.connect()
     s.settle()
     s.obs()
-    if kind == "callcast":
+    if kind == "slowstart":
+        # an advertised actor that is still in pre_start (Starting) when the first messages for it arrive
+        for _ in range(rng.choice([1, 2])):
+            i = s.nprobe
+            s.nprobe += 1
+            s.alive.add(i)
+            s.pending_known.add(i)
+            s.op(f"spawnslow {i}")
+            s.starting.add(i)
+            if rng.random() < 0.5:
+                s.op(f"join {i} {gkey(rng)}")
+            s.settle()
+            via = rng.choice([0, 1])
+            for _ in range(rng.choice([1, 3, 6])):
+                if rng.random() < 0.6:
+                    s.cast(rng.randrange(3), via, i, rng.choice([0, 5, 40]))
+                else:
+                    s.call(rng.randrange(3), rng.choice([0, 1]), i, 0, 0, 0, 8)
+            s.settle()
+            if rng.random() < 0.5:
+                s.obs()
+            traffic(s, rng.choice([0, 5]))
+            s.op(f"release {i}")
+            s.starting.discard(i)
+            s.settle()
+            traffic(s, rng.choice([2, 8]))
+        s.settle()
+        s.op("advance 300")
+        s.settle()
+        s.obs()
+    elif kind == "callcast":
         # one sender issues calls WITHOUT awaiting them and then casts / further calls to the same remote
         # reference; all frames are queued at the peer session before it gets to run
         for _ in range(rng.choice([2, 4, 8])):
@@ -585,6 +651,24 @@ def last_up(o):
 
 # --------------------------------------------------------------------------------------
 
+def split_stuck(chk, what, cases, outs, line_of_case):
+    """a harness line `stuck "<why>"` = the real code wedged or panicked on this case (reported as a
+    failing input); `skipped` = not evaluated after that"""
+    kc, ko = [], []
+    for c, out in zip(cases, outs):
+        if out.startswith("skipped"):
+            chk.count(what + ".skipped_after_stuck")
+        elif out.startswith("stuck"):
+            chk.coverage["evaluations"] += 1
+            chk.violation(f"{what}: the real code got stuck / panicked: " + out[:200],
+                          f"C20 {what} engine: the real handlers could not finish the history\n"
+                          + json.dumps({"kind": what, "harness_line": line_of_case(c), "observation": out}, indent=1))
+        else:
+            kc.append(c)
+            ko.append(out)
+    return kc, ko
+
+
 def run(chk):
     quick = chk.tier == "quick"
     ok_proofs = chk.proofs()
@@ -605,6 +689,8 @@ def run(chk):
     n_px = (250 if quick else 4000) * factor
     pcases = [gen_proxy_case(rng, big=(i % 10 == 0)) for i in range(n_px)]
     impl = run_harness(build, "eng_remote", [proxy_line(c) for c in pcases], shards=4)
+    pcases, impl = split_stuck(chk, "proxy", pcases, impl, proxy_line)
+    n_px = len(pcases)
     exprs = []
     for c in pcases:
         exprs.append(f"prun_view pst0 {proxy_events(c)}")
@@ -649,10 +735,13 @@ def run(chk):
         impl = run_harness(build, "eng_remote", [sess_line(c) for c in scases], shards=4)
     except RuntimeError as e:
         return infrastructure_failure(chk.prop, "session engine did not complete: " + str(e)[-1500:])
+    scases, impl = split_stuck(chk, "sess", scases, impl, sess_line)
+    n_ss = len(scases)
     sexprs = [sess_model(c) for c in scases]
     for c, out in zip(scases, impl):
         exited = sorted({op[1] for op in c["ops"] if op[0] in ("exit", "hexit")})
-        sexprs.append(f"check_C20_sess [{'; '.join(map(str, exited))}] {out} && check_C20_sess_order {sess_inbound(c)} {out}")
+        sexprs.append(f"check_C20_sess [{'; '.join(map(str, exited))}] {out} && check_C20_sess_order {sess_inbound(c)} {out} "
+                      f"&& check_C20_sess_complete {sess_inbound(c, True)} {out}")
     model = coq_eval(TAG + "s", IMPORTS, sexprs)
     for i, c in enumerate(scases):
         mv = canon_u(parse_term(model[i]), c["ops"])
@@ -660,7 +749,8 @@ def run(chk):
         if model[n_ss + i] != "true":
             desc = json.dumps({"kind": "sess", "harness_line": sess_line(c),
                                "clause": "every announced local actor that exited is reported with a Terminate frame; what a local actor "
-                                         "handled is, per sender, a subsequence of the frames that arrived for it, in arrival order (calls included)",
+                                         "handled is, per sender, a subsequence of the frames that arrived for it, in arrival order (calls included); every frame that "
+                                         "arrives for an actor that is alive (in pre_start or running) is handled, once, in order",
                                "impl": impl[i]}, indent=1)
             chk.violation("session: an announced actor's exit was never reported (no Terminate frame), or frames from one sender "
                           "were handed to the actor out of arrival order",
@@ -686,7 +776,7 @@ def run(chk):
     ncases = []
     n_net = (200 if quick else 3000) * factor
     for i in range(n_net):
-        kind = ["strict", "strict", "exit", "cut", "cut", "burst", "callcast"][i % 7]
+        kind = ["strict", "strict", "exit", "cut", "cut", "burst", "callcast", "slowstart"][i % 8]
         s = gen_net_case(rng, kind)
         ncases.append({"kind": kind, "line": s.line(), "strict": s.strict, "expect": sorted(s.expect),
                        "quiescent": s.quiescent})
@@ -700,6 +790,24 @@ def run(chk):
         return infrastructure_failure(chk.prop, "two-node engine did not complete: " + str(e)[-1500:])
     exprs = []
     obs = []
+    nstuck = 0
+    kept = []
+    for c, out in zip(ncases, impl):
+        if out.startswith("skipped"):
+            chk.count("net.skipped_after_stuck")
+            continue
+        if out.startswith("stuck"):
+            # the code under test wedged the run (a node or actor that does not stop, a panic, ...):
+            # an observation about the implementation with the scenario as failing input
+            nstuck += 1
+            chk.coverage["evaluations"] += 1
+            chk.violation("two real nodes: the run got stuck / crashed: " + out[:200],
+                          "C20 two-node engine: the real nodes could not finish the scenario\n"
+                          + json.dumps({"kind": "net", "scenario_kind": c["kind"], "harness_line": c["line"], "observation": out}, indent=1))
+            continue
+        kept.append((c, out))
+    ncases = [c for c, _ in kept]
+    impl = [o for _, o in kept]
     for c, out in zip(ncases, impl):
         t = parse_term(out)
         o = parse_obs(t)
